@@ -70,8 +70,17 @@ def rule_tokens(ctx):
     ok = neg["ty"] == "atomic" and g.literal_of("negation") == ["not"] and g.rule("sign")["expr"]["e"] == "repn" and g.rule("sign")["expr"]["max"] == 2
     ctx.add("PRN-K", "Sign:grammar", ok, "src/parsing/asp/mini_gringo/grammar.pest", "sign = negation{0,2}, negation = @{ \"not\" ~ &(WHITESPACE | EOI) }")
     lb = printers.display_impl(fx, "asp", "Literal")
-    lv = printers.evaluate(fx, lb).value
-    ok = lv[0] == "if" and lv[2][:2] == ("write", "{}") and lv[3][:2] == ("write", "{} {}")
+    # decided per sign: what the literal printer writes for a literal of that sign (an `if`, a `match` or a helper spell the same table)
+    ok = True
+    for sg_ in fx.variants("syntax_tree::asp::mini_gringo::Sign"):
+        ev_ = sym.Eval(fx, inline_depth=0)
+        lit_ = ("ctor", "Literal", (("atom", ("param", "$a")), ("sign", ("ctor", "Sign::" + sg_, ()))))
+        ev_.function(lb, [("ctor", "Format", (("0", lit_),)), ("param", "$f")])
+        ws_ = [o[2] for o in ev_.out if o[2][0] == "write"]
+        if sg_ == "NoSign":
+            ok = ok and [w_[1] for w_ in ws_] == ["{}"] and "$a" in repr(ws_[0][2]) and "Sign::" not in repr(ws_[0][2])
+        else:
+            ok = ok and [w_[1] for w_ in ws_] == ["{} {}"] and "Sign::" + sg_ in repr(ws_[0][2][0]) and "$a" in repr(ws_[0][2][1])
     ctx.add("PRN-J", "sign-atom", ok, ctx.site(lb), "a signed literal is printed `sign atom` with a space (the negation token requires following whitespace); an unsigned one without")
     # heads
     hb = printers.display_impl(fx, "asp", "Head")
@@ -198,7 +207,26 @@ def rule_lists(ctx):
     rp = printers.evaluate(fx, rb)
     conds = [c for c, l, item in rp.out if item[0] == "write" and item[1] == " :- "]
     ref = ((("bin", "Or", ("bin", "Eq", ("place", "self.0.head"), ("ctor", "Head::Falsity", ())), ("op", "Not", ("call", "Vec::is_empty", (("place", "self.0.body.formulas"),)))), True),)
-    ctx.add("LIST", "Rule:separator", conds == [ref], ctx.site(rb), "` :- ` is printed iff the head is empty or the body is not (a fact is `head.`, a constraint `:- body.`)")
+    # compared as a function of its two atomic conditions (`==` / `matches!`, `||` / nested ifs, destructured or not)
+    from .. import leaves as _lv
+
+    def when(cs):
+        out = [((), ("lit", True))]
+        for c_ in cs:
+            nxt = []
+            for ts_, _ in out:
+                for ts2, v2 in _lv.bool_leaves(c_[0], ts_):
+                    if v2 == ("lit", c_[1]):
+                        nxt.append((tuple(ts2), ("lit", True)))
+            out = nxt
+        return out
+    okr = len(conds) == 1
+    if okr:
+        try:
+            okr = _lv.same_decision(when(conds[0]), when(ref[0] if False else ref))[0]
+        except Exception:
+            okr = conds == [ref]
+    ctx.add("LIST", "Rule:separator", okr, ctx.site(rb), "` :- ` is printed iff the head is empty or the body is not (a fact is `head.`, a constraint `:- body.`)")
     bb = printers.display_impl(fx, "asp", "Body")
     bp = printers.evaluate(fx, bb)
     seps = [item[1] for c, l, item in bp.out if item[0] == "write"]
